@@ -381,3 +381,40 @@ pub fn lost_by_force_position(rng: &mut Rng) -> Option<Pos> {
     }
     None
 }
+
+/// More than 128 legal moves in one position: five to eight queens (and a few other men)
+/// against a king that is not in check. Valid, absurd, and larger than any fixed-size move
+/// buffer someone may have thought generous.
+pub fn many_queens_position(rng: &mut Rng) -> Pos {
+    loop {
+        let mut p = Pos {
+            sq: [EMPTY; 64],
+            white_to_move: true,
+            castle: [false; 4],
+            ep: None,
+            halfmove: 0,
+            fullmove: 90,
+        };
+        let white = rng.chance(1, 2);
+        let (me, them) = if white { (0, BLACK) } else { (BLACK, 0) };
+        p.white_to_move = white;
+        let mut free: Vec<u8> = (0..64).collect();
+        rng.shuffle(&mut free);
+        p.sq[free.pop().unwrap() as usize] = KING | me;
+        p.sq[free.pop().unwrap() as usize] = KING | them;
+        for _ in 0..rng.range(5, 8) {
+            p.sq[free.pop().unwrap() as usize] = QUEEN | me;
+        }
+        for _ in 0..rng.below(4) {
+            let s = free.pop().unwrap();
+            let k = *rng.pick(&[PAWN, KNIGHT, BISHOP, ROOK]);
+            if k == PAWN && (rank_of(s) == 0 || rank_of(s) == 7) {
+                continue;
+            }
+            p.sq[s as usize] = k | if rng.chance(1, 2) { me } else { them };
+        }
+        if p.is_valid() && p.legal_moves().len() > 128 {
+            return p;
+        }
+    }
+}
